@@ -17,7 +17,9 @@ import (
 	"fmt"
 	"os"
 	"path/filepath"
+	"runtime"
 	"sort"
+	"strings"
 )
 
 // Ev is one trace event: input fields filled by a generator, observation
@@ -275,7 +277,7 @@ func GI(v interface{}) int {
 	panic(fmt.Sprintf("GI: %T", v))
 }
 
-func GS(v interface{}) string { s, _ := v.(string); return s }
+func GS(v interface{}) string  { s, _ := v.(string); return s }
 func GBool(v interface{}) bool { b, _ := v.(bool); return b }
 
 // GIs reads an int array field.
@@ -315,15 +317,50 @@ func UW64(v interface{}) uint64 {
 	return r
 }
 
-// guard runs f, converting a panic into an error-class string.
+// guard runs f, converting a panic raised inside the library into an
+// error-class string "panic:<value>".  A panic whose innermost non-runtime frame
+// is in this harness is a harness bug: it is reported as "harness-panic:..."
+// which bin/check turns into BROKEN, never into a verdict about the code.
 func guard(f func()) (perr string) {
 	defer func() {
 		if r := recover(); r != nil {
-			perr = fmt.Sprintf("panic:%v", r)
+			pcs := make([]uintptr, 64)
+			n := runtime.Callers(2, pcs)
+			frames := runtime.CallersFrames(pcs[:n])
+			seenPanic := false
+			origin := ""
+			for {
+				fr, more := frames.Next()
+				if fr.Function == "runtime.gopanic" {
+					seenPanic = true
+				} else if seenPanic && !strings.HasPrefix(fr.Function, "runtime.") {
+					origin = fr.Function
+					break
+				}
+				if !more {
+					break
+				}
+			}
+			if strings.HasPrefix(origin, "main.") {
+				perr = fmt.Sprintf("harness-panic:%v at %s", r, origin)
+			} else {
+				perr = fmt.Sprintf("panic:%v", r)
+			}
 		}
 	}()
 	f()
 	return ""
+}
+
+// asMap views a nested JSON object whether it was built in-process (Ev) or decoded.
+func asMap(v interface{}) map[string]interface{} {
+	switch t := v.(type) {
+	case Ev:
+		return t
+	case map[string]interface{}:
+		return t
+	}
+	panic(fmt.Sprintf("asMap: %T", v))
 }
 
 func sortedKeys(m map[string]int) []string {
